@@ -47,9 +47,10 @@ pub open spec fn swap_guarded(w: World, pair: Seq<char>, i0: AssetInfo, i1: Asse
     proof {
         // witnesses for the existential: the two pool descriptors returned by query_pools
         assert(raw_of(pools[0].info, pair_info.asset_infos[0]) && raw_of(pools[1].info, pair_info.asset_infos[1]));
-        /*[C10 swap.guard-witness]*/ assert(swap_guarded(deps.querier.world(), env.contract.address.0@, pools[0].info, pools[1].info, pair_info.asset_decimals, commission_rate.0.v(), offer_asset, belief_price, max_spread));
+        // (a failed assert is assumed by what follows it: the settlement witness comes first, a guard failure after it is reported on its own)
         /*[C02,C01,C07,C12 swap.witness]*/ assert(swap_settles(deps.querier.world(), env.contract.address.0@, pools[0].info, pools[1].info, commission_rate.0.v(), offer_asset,
             (if to is Some { to->Some_0.0@ } else { sender.0@ }), messages@));
+        /*[C10 swap.guard-witness]*/ assert(swap_guarded(deps.querier.world(), env.contract.address.0@, pools[0].info, pools[1].info, pair_info.asset_decimals, commission_rate.0.v(), offer_asset, belief_price, max_spread));
     }
 //%end
 
